@@ -192,9 +192,9 @@ class SSH_Socket(ReadBuf, WriteBuf):
         e = None
         while s >= 0:
             s, e = self.recv()
-            if s < 0:
-                continue
-            while self.unread_len > 0:
+
+            # Only parse complete lines, as a line may arrive split across several TCP segments.  Once the connection has ended (or timed out), parse whatever is left.
+            while (self.unread_len > 0) and ((s < 0) or self.__has_unread_line()):
                 line = self.read_line()
                 if len(line.strip()) == 0:
                     continue
@@ -204,6 +204,13 @@ class SSH_Socket(ReadBuf, WriteBuf):
                 self.__header.append(line)
 
         return self.__banner, self.__header, e
+
+    def __has_unread_line(self) -> bool:
+        '''Returns True if the unread data contains a complete (newline-terminated) line.'''
+        pos = self._buf.tell()
+        data = self._buf.read()
+        self._buf.seek(pos, 0)
+        return b'\n' in data
 
     def recv(self, size: int = 2048) -> Tuple[int, Optional[str]]:
         if self.__sock is None:
